@@ -14,6 +14,7 @@ fn c08_balances_match_reference() {
             cases += 1;
             let last = e.unwrap_or(11).min(11);
             let out = tempfile::tempdir().unwrap();
+            std::fs::write(out.path().join("balances.csv.tmp"), "stale;row\n".repeat(5000)).unwrap();   // leftover of an aborted run
             let m = Balances::build_subcommand().get_matches_from(vec!["balances", out.path().to_str().unwrap()]);
             let cb = Balances::new(&m).unwrap();
             let inp = format!("history {} range {}..{:?}", salt, s, e);
@@ -30,6 +31,18 @@ fn c08_balances_match_reference() {
             check(extra.is_empty() && missing.is_empty(), suite, "C08:one_row_per_address_with_the_exact_sum", &inp,
                   &format!("{} rows; {} unexpected e.g. {:?}; {} missing e.g. {:?}", got.len(), extra.len(), extra.first(), missing.len(), missing.first()), &format!("{} rows", want.len()));
         }
+    }
+    // no address owns anything (every output is OP_RETURN / nonstandard): header only, the file still exists
+    {
+        cases += 1;
+        let chain = { let mut c: Vec<BlockSpec> = make_chain(3, &mut |_| vec![TxSpec::new(vec![TxIn::new([9; 32], 0, vec![])], vec![TxOut::new(5, vec![0x6a, 0x01, 0x41])])]);
+            for b in c.iter_mut() { b.txs[0].outputs[0].script = vec![0x51]; } relink(&mut c); c };
+        let d = simple_dir(&chain); d.write();
+        let out = tempfile::tempdir().unwrap();
+        let m = Balances::build_subcommand().get_matches_from(vec!["balances", out.path().to_str().unwrap()]);
+        let r = drive_with(d.path(), "bitcoin", 0, None, false, Box::new(Balances::new(&m).unwrap()));
+        let lines = csv_lines(&out.path().join("balances-0-2.csv"));
+        check(r.is_ok() && lines == vec!["address;balance".to_string()], suite, "C08:header_row", "history in which no output carries an address", &format!("{:?} {:?}", r.err(), lines), "[\"address;balance\"]");
     }
     finish(suite, cases);
 }
